@@ -438,7 +438,8 @@ class MoveGen:
                      "early_return": False, "parallel": True, "devcalls": True, "gates": True, "fill": True,
                      "measure": True, "assert": 0.02, "cz_positional": 0.0, "args_dependent": 0.7,
                      "dynamic_call": 0.0, "dead_effect": 0.0, "wrong_kind": 0.0, "alias_subs": 0.0,
-                     "devfn_param": 0.0, "loop_return": 0.0, "twin_devs": 0.0}
+                     "devfn_param": 0.0, "loop_return": 0.0, "twin_devs": 0.0,
+                     "look_kinds": ("trap", "special", "intC", "floatC")}
         if feat:
             self.feat.update(feat)
         self.counter = 0
@@ -473,7 +474,7 @@ class MoveGen:
         if r < 0.76 and not typed:
             # kirin's type inference leaves // and % untyped
             return P(self.rng.choice(["floordiv", "mod"]), self.int_e(env, depth - 1, typed), L(self.rng.randrange(1, 4)))
-        if r < 0.86 and self.feat["lookups"]:
+        if r < 0.86 and self.feat["lookups"] and "intC" in self.feat["look_kinds"]:
             return ("look", "intC", self.name_for("intC"))
         if r < 0.93 and env["grid"]:
             return P("index", P("shape", ("var", self.rng.choice(env["grid"]))), L(self.rng.randrange(0, 2)))
@@ -485,7 +486,7 @@ class MoveGen:
             return L(Fraction(self.rng.randrange(-8, 9), self.rng.choice([1, 2, 4])))
         if env["float"] and r < 0.55:
             return ("var", self.rng.choice(env["float"]))
-        if r < 0.7 and self.feat["lookups"]:
+        if r < 0.7 and self.feat["lookups"] and "floatC" in self.feat["look_kinds"]:
             return ("look", "floatC", self.name_for("floatC"))
         if r < 0.85 and depth > 0:
             # kirin's type inference only types float * <int variable or literal> as float
@@ -508,6 +509,8 @@ class MoveGen:
             return ("var", self.rng.choice(env["grid"]))
         if self.feat["lookups"] and r < 0.85 or not env["grid"]:
             k = "special" if self.rng.random() < 0.25 else "trap"
+            if k not in self.feat["look_kinds"]:
+                k = "special" if k == "trap" else "trap"
             return ("look", k, self.name_for(k))
         g = ("var", self.rng.choice(env["grid"]))
         if r < 0.93:
